@@ -133,6 +133,9 @@ func (k *Case) connState() string {
 	if k.C.peerGone {
 		return "peerclosed"
 	}
+	if k.C.halfClosed {
+		return "rdclosed"
+	}
 	return "open"
 }
 
@@ -380,6 +383,11 @@ func (k *Case) Do(step []any) error {
 	case "PeerClose":
 		c.nfault++
 		k.peerDies()
+	case "PeerHalfClose":
+		// the peer ends its sending direction (EOF once what is in flight has been read) and stops
+		// reading: a Write the client is in, or starts, blocks
+		c.nfault++
+		c.halfClosed = true
 	case "Unmount":
 		c.nfault++
 		c.Clnt.Unmount()
@@ -476,7 +484,7 @@ func (k *Case) enabledSteps(faults bool) [][]any {
 	case "read":
 		if len(c.fromPeer) > 0 && conn != "clntclosed" {
 			out = append(out, []any{"RRead"})
-		} else if len(c.fromPeer) == 0 && conn == "peerclosed" {
+		} else if len(c.fromPeer) == 0 && (conn == "peerclosed" || conn == "rdclosed") {
 			out = append(out, []any{"RReadEOF"})
 		}
 	case "deliver":
@@ -514,6 +522,9 @@ func (k *Case) enabledSteps(faults bool) [][]any {
 			if k.Cfg.hasFault("close") {
 				out = append(out, []any{"PeerClose"})
 			}
+			if k.Cfg.hasFault("halfclose") {
+				out = append(out, []any{"PeerHalfClose"})
+			}
 		}
 	}
 	if faults && conn != "clntclosed" && c.nfault < k.Cfg.MaxFaults && k.Cfg.hasFault("unmount") {
@@ -533,7 +544,7 @@ func (k *Case) Complete(max int, faults bool, faultWeight int) {
 		var st []any
 		for tries := 0; ; tries++ {
 			st = en[k.rng.Intn(len(en))]
-			isFault := st[0] == "PeerClose" || st[0] == "PeerCut" || st[0] == "PeerFrame" || st[0] == "Unmount"
+			isFault := st[0] == "PeerClose" || st[0] == "PeerHalfClose" || st[0] == "PeerCut" || st[0] == "PeerFrame" || st[0] == "Unmount"
 			if !isFault || tries > 8 || k.rng.Intn(faultWeight) == 0 {
 				break
 			}
@@ -651,13 +662,13 @@ func (k *Case) finish() {
 	c.ReleaseAll()
 	// the peer keeps behaving: it takes what the client still writes (unanswered) and, if its end
 	// is dead, the client sees EOF
-	for i := 0; i < 1000 && c.Conn.Writing() && !c.peerGone; i++ {
+	for i := 0; i < 1000 && c.Conn.Writing() && !c.peerGone && !c.halfClosed; i++ {
 		if b := c.Conn.Take(); b == nil {
 			break
 		}
 		c.Wait()
 	}
-	if c.peerGone {
+	if c.peerGone || c.halfClosed {
 		c.Conn.EOF()
 		c.Wait()
 	}
@@ -699,7 +710,7 @@ func (k *Case) judge(quiet Event) {
 	c.mu.Lock()
 	defer c.mu.Unlock()
 	consumed := c.Conn.Consumed()
-	failed := c.peerGone || c.Conn.IsClosed() || quiet["cerr"] == true
+	failed := c.peerGone || c.halfClosed || c.Conn.IsClosed() || quiet["cerr"] == true
 	for _, h := range c.callers {
 		for i := 1; i <= h.started; i++ {
 			call := callID(h.id, i, c.NCalls)
